@@ -110,113 +110,249 @@ def run(run):
 
     run.guarded("R1", r1)
 
+    MUTATORS = ("retain", "retain_mut", "filter_modules_for_partial_run", "push", "remove", "clear", "truncate", "drain", "pop", "insert", "extend", "append", "swap_remove", "split_off", "resize")
+
     def r2():
+        from .lib import peval as PE
+        from .lib import strpred as SP
         m = C.fn("run_with_ghidra")
-        sy = S.Sym(C)
-        env = {}
-        t = sy.term(m["body"], env)
-        site = C.loc(m["body"])
-        stmts = list(t[1]) + [t[2]] if t[0] == "seq" else [t]
-        muts = [i for i, st in enumerate(stmts) if mutates_modules(st)]
-        run.check("R2", "single-filter-statement", len(muts) == 1, "the module list must be filtered by exactly one statement (the partial/LKM/default chain); found %d mutating statements" % len(muts), site)
-        if not muts:
-            return
-        chain = stmts[muts[0]]
-        # chain: ite(let Some = args.partial, A, ite(is_lkm, B, D))
-        ok_shape = chain[0] == "ite" and chain[1][0] == "let" and chain[1][1].startswith("Some") and chain[1][2][0] == "field" and chain[1][2][2] == "partial"
-        if not ok_shape:
-            # accept `if args.partial.is_some()` as well
-            ok_shape = chain[0] == "ite" and is_call(chain[1], "is_some") and chain[1][2][0][0] == "field" and chain[1][2][0][2] == "partial"
-        run.check("R2", "chain|partial-first", ok_shape, "the first decision of the filter must be `--partial given`; found %s" % fmt(chain[1] if chain[0] == "ite" else chain)[:160], site)
-        if not ok_shape:
-            return
-        partial_b, rest = chain[2], S.value(chain[3])
-        pcalls = [x for x in S.subterms(partial_b) if is_call(x, "filter_modules_for_partial_run")]
-        good = len(pcalls) == 1 and pcalls[0][2][0][0] == "var" and pcalls[0][2][0][1] == "modules" and pcalls[0][2][1][0] == "field" and "partial" in fmt(pcalls[0][2][1])
-        run.check("R2", "chain|partial-action", bool(good) and not any(is_call(x, "retain") for x in S.subterms(partial_b)), "with --partial the list must be filtered by filter_modules_for_partial_run(modules, <the --partial argument>) only", site)
-        lkm_shape = rest[0] == "ite" and rest[1][0] == "field" and rest[1][2] == "is_lkm"
-        run.check("R2", "chain|lkm-second", lkm_shape, "the second decision must be `input is a kernel module` (runtime_memory_image.is_lkm); found %s" % fmt(rest[1] if rest[0] == "ite" else rest)[:160], site)
-        if not lkm_shape:
-            return
-        lkm_b, def_b = rest[2], rest[3]
-        # closures
-        def retain_closure(b):
-            cs = [x for x in S.subterms(b) if is_call(x, "retain") and x[2][0][0] == "var" and x[2][0][1] == "modules"]
-            if len(cs) != 1 or cs[0][2][1][0] != "closure":
+        body = m["body"]
+        site = C.loc(body)
+        # the local variable holding the module list: initialised from get_modules()
+        mod_ids = {s_["p"]["id"] for s_ in T.walk(body) if s_.get("k") == "LetStmt" and "i" in s_ and s_["p"].get("k") == "Bind" and any(T.is_call(x, "get_modules") for x in T.walk(s_["i"]))}
+        if not mod_ids:
+            raise T.AnchorMissing("run_with_ghidra: no `let modules = get_modules()`")
+
+        def on_modules(e):
+            return T.root_var_id(e) in mod_ids
+
+        def strip(e):
+            e = T.peel(e)
+            while e.get("k") == "Call" and e.get("n") in ("as_ref", "as_deref", "clone", "as_mut", "deref", "borrow", "as_str", "unwrap", "expect") and e.get("a"):
+                e = T.peel(e["a"][0])
+            return e
+
+        def is_partial(e):
+            e = strip(e)
+            return e.get("k") == "Field" and e.get("fn") == "partial"
+
+        def is_lkm_flag(e):
+            e = T.peel(e)
+            return e.get("k") == "Field" and e.get("fn") == "is_lkm"
+
+        def actions(nodes):
+            out = []
+            for x in nodes:
+                if x.get("k") == "Call" and x.get("n") in MUTATORS and x.get("a") and on_modules(x["a"][0]):
+                    out.append(x)
+                elif x.get("k") in ("Assign", "AssignOp") and on_modules(x["l"]):
+                    out.append(x)
+            return out
+
+        def scenario(partial, lkm):
+            hits = {"partial": 0, "lkm": 0}
+
+            def assume(n):
+                k = n.get("k")
+                if k == "Call" and n.get("n") in ("is_some", "is_none") and n.get("a") and is_partial(n["a"][0]):
+                    hits["partial"] += 1
+                    return ("bool", partial == (n["n"] == "is_some"))
+                if (k == "Field" or k == "Call") and is_partial(n) and (C.ty(n) or "").replace("&", "").strip().startswith(("std::option::Option", "Option", "core::option::Option")):
+                    hits["partial"] += 1
+                    return ("enum", "Some" if partial else "None")
+                if k == "Field" and is_lkm_flag(n):
+                    hits["lkm"] += 1
+                    return ("bool", lkm)
                 return None
-            c = C.closure_by_path(cs[0][2][1][1])
-            return S.value(S.Sym(C).term(c["body"]))
-        lk = retain_closure(lkm_b)
-        if lk is None:
-            run.undecided("R2", "lkm-predicate", "LKM branch is not a single modules.retain(closure)", site)
-        else:
-            good = is_call(lk, "contains") and len(lk[2]) == 2 and lk[2][0][0] == "const" and lk[2][0][1].endswith("MODULES_LKM") and lk[2][1][0] == "field" and lk[2][1][2] == "name"
-            run.check("R2", "lkm-predicate", good, "kernel-module runs must keep exactly the modules whose name is in MODULES_LKM; predicate is %s" % fmt(lk), site)
-        df = retain_closure(def_b)
-        cwe78 = [e for p, e in statics.items() if p.endswith("cwe_78::CWE_MODULE")]
+            spec = PE.Spec(C, assume=assume)
+            nodes = spec.reach(body, {})
+            return nodes, hits
+
+        known = sorted(e["name"] for e in statics.values() if e.get("name"))
+        cwe78 = [e for p_, e in statics.items() if p_.endswith("cwe_78::CWE_MODULE")]
         if not cwe78:
             raise T.AnchorMissing("cwe_78::CWE_MODULE not found")
         name78 = cwe78[0]["name"]
-        if df is None:
-            run.undecided("R2", "default-predicate", "default branch is not a single modules.retain(closure)", site)
-        else:
-            pol = True
-            d = df
-            while d[0] == "not":
-                d, pol = d[1], not pol
-            good = None
-            if is_call(d, ("ne", "eq")) and len(d[2]) == 2:
-                a, b = d[2]
-                fld = a if a[0] == "field" else b
-                other = b if fld is a else a
-                val = other[1] if other[0] == "lit" else (name78 if (other[0] == "field" and other[2] == "name" and other[1][0] == "const" and other[1][1].endswith("cwe_78::CWE_MODULE")) else None)
-                keep_if_different = (d[1] == "ne") == pol
-                if fld[0] == "field" and fld[2] == "name" and val is not None:
-                    good = keep_if_different and val == name78
-                    run.check("R2", "default-predicate", good, "a default run must remove exactly the OS-command-injection check (%s); the predicate %s removes %s" % (name78, fmt(df), ("module %r" % val) if keep_if_different else ("everything except %r" % val)), site)
-            if good is None:
-                run.undecided("R2", "default-predicate", "predicate outside the vocabulary: %s" % fmt(df), site)
-        # MODULES_LKM names
         lkm = [f for f in F.fns if f["name"] == "MODULES_LKM"]
-        if lkm:
-            lt = S.Sym(F).term(lkm[0]["body"])
-            names = [x[1] for x in S.subterms(lt) if isinstance(x, tuple) and x and x[0] == "lit"]
-            known = {e["name"] for e in statics.values()}
-            extra = [n for n in names if n not in known]
+        if not lkm:
+            raise T.AnchorMissing("MODULES_LKM not found")
+        sp = SP.StrPred([C, F])
+        lkm_val = sp.ev(lkm[0]["body"], {})
+        if isinstance(lkm_val, tuple):
+            intended = set(lkm_val[1])
+        elif isinstance(lkm_val, str):
+            intended = {x.strip() for x in lkm_val.split(",") if x.strip()}
+        else:
+            intended = None
+
+        def keep_set(call):
+            """names of registered modules kept by `modules.retain(closure)`; None if the predicate is outside the vocabulary"""
+            if call.get("n") not in ("retain", "retain_mut") or len(call["a"]) != 2:
+                return None
+            cl = T.peel(call["a"][1])
+            if cl.get("k") != "Closure":
+                return None
+            c = C.by_path.get(cl["d"])
+            bp = SP.closure_param(c) if c is not None else None
+            if bp is None:
+                return None
+            kept = set()
+            env0 = {}
+            for x in T.walk(body):
+                if x.get("k") == "LetStmt" and "i" in x and x["p"].get("k") == "Bind":
+                    v = sp.ev(x["i"], env0)
+                    if v is not None:
+                        env0[x["p"]["id"]] = v
+            for nme in known:
+                env1 = dict(env0)
+                env1[bp["id"]] = ("struct", {"name": nme})
+                r = sp.ev(c["body"], env1)
+                if r is None:
+                    return None
+                if r:
+                    kept.add(nme)
+            return kept
+
+        run_calls_all = [x for x in T.walk_deep(C, body, 1) if x.get("k") == "Call" and "f" not in x and T.peel(x.get("fe", {})).get("k") == "Field" and T.peel(x["fe"]).get("fn") == "run"]
+
+        def before_run(nodes, act):
+            ids = [id(x) for x in nodes]
+            rc = [ids.index(id(x)) for x in run_calls_all if id(x) in ids]
+            # a run call inside a for_each closure is not in `nodes`: then the statement holding the closure is what counts
+            if not rc:
+                rc = [i for i, x in enumerate(nodes) if x.get("k") == "Closure" and any(id(y) in {id(z) for z in run_calls_all} for y in T.walk(C.by_path[x["d"]]["body"]))] if True else []
+            return bool(rc) and ids.index(id(act)) < min(rc)
+
+        # --- scenario: --partial given (kernel module or not)
+        for lk_ in (False, True):
+            nodes, hits = scenario(True, lk_)
+            key = "chain|partial-first" if not lk_ else "chain|partial-overrides-lkm"
+            acts = actions(nodes)
+            if not hits["partial"] and not acts:
+                run.undecided("R2", key, "no test of args.partial found on the way to the module filter", site)
+                continue
+            good = len(acts) == 1 and acts[0].get("n") == "filter_modules_for_partial_run" and len(acts[0]["a"]) == 2
+            run.check("R2", key, good, "with --partial given%s the module list must be filtered by filter_modules_for_partial_run(modules, <the --partial argument>) only; actions on the module list: %s" % (" (kernel module input)" if lk_ else "", [T.show(a, C)[:80] for a in acts]), site)
+            if good:
+                run.check("R2", key.replace("chain|", "order|"), before_run(nodes, acts[0]), "the selection must be applied before the modules are run", site)
+        # the argument handed to the filter is the --partial value itself
+        nodes, hits = scenario(True, False)
+        acts = actions(nodes)
+        if len(acts) == 1 and acts[0].get("n") == "filter_modules_for_partial_run":
+            a1 = acts[0]["a"][1]
+            vid = T.var_id(strip(a1))
+            ok = is_partial(a1) or any(is_partial(x) for x in T.walk(a1))
+            if not ok and vid is not None:
+                # bound by `if let Some(x) = args.partial` / `match args.partial { Some(x) => .. }` / let
+                for x in T.walk(body):
+                    if x.get("k") in ("Let", "Match") and is_partial(x["e"]) and any(b.get("id") == vid for pp in ([x["p"]] if x.get("k") == "Let" else [a["p"] for a in x["arms"]]) for b in walk_pat(pp)):
+                        ok = True
+                    if x.get("k") == "LetStmt" and "i" in x and any(b.get("id") == vid for b in walk_pat(x["p"])) and any(is_partial(y) for y in T.walk(x["i"])):
+                        ok = True
+            run.check("R2", "chain|partial-action", ok, "filter_modules_for_partial_run must receive the --partial argument; it receives %s" % T.show(a1, C)[:100], site)
+        # --- scenario: no --partial, kernel module
+        nodes, hits = scenario(False, True)
+        acts = actions(nodes)
+        if (not hits["lkm"] or not hits["partial"]) and not acts:
+            run.undecided("R2", "chain|lkm-second", "no test of is_lkm found on the way to the module filter", site)
+        else:
+            run.check("R2", "chain|lkm-second", len(acts) == 1 and acts[0].get("n") in ("retain", "retain_mut"), "for a kernel module without --partial exactly one retain must filter the module list; actions: %s" % [T.show(a, C)[:80] for a in acts], site)
+            if len(acts) == 1:
+                ks = keep_set(acts[0])
+                if ks is None or intended is None:
+                    run.undecided("R2", "lkm-predicate", "predicate outside the vocabulary: %s" % T.show(acts[0], C)[:200], site)
+                else:
+                    want = intended & set(known)
+                    run.check("R2", "lkm-predicate", ks == want, "kernel-module runs must keep exactly the registered modules listed in MODULES_LKM %s; the predicate keeps %s (wrongly kept: %s, wrongly dropped: %s)" % (sorted(want), sorted(ks), sorted(ks - want), sorted(want - ks)), site)
+                run.check("R2", "order|lkm", before_run(nodes, acts[0]), "the selection must be applied before the modules are run", site)
+        # --- scenario: no --partial, user-space binary
+        nodes, hits = scenario(False, False)
+        acts = actions(nodes)
+        if (not hits["lkm"] or not hits["partial"]) and not acts:
+            run.undecided("R2", "chain|default-last", "no test of is_lkm found on the way to the module filter", site)
+        else:
+            run.check("R2", "chain|default-last", len(acts) == 1 and acts[0].get("n") in ("retain", "retain_mut"), "for a default run exactly one retain must filter the module list; actions: %s" % [T.show(a, C)[:80] for a in acts], site)
+            if len(acts) == 1:
+                ks = keep_set(acts[0])
+                if ks is None:
+                    run.undecided("R2", "default-predicate", "predicate outside the vocabulary: %s" % T.show(acts[0], C)[:200], site)
+                else:
+                    want = set(known) - {name78}
+                    run.check("R2", "default-predicate", ks == want, "a default run must remove exactly the OS-command-injection check (%s); the predicate wrongly keeps %s and wrongly drops %s" % (name78, sorted(ks - want), sorted(want - ks)), site)
+                run.check("R2", "order|default", before_run(nodes, acts[0]), "the selection must be applied before the modules are run", site)
+        # --- MODULES_LKM
+        lty = F.tyi(lkm[0]["ret"]) if isinstance(lkm[0].get("ret"), int) else (F.ty(lkm[0]["body"]) or "")
+        if isinstance(lkm_val, str):
+            selected = {n for n in known if n in lkm_val}
+            wrong = sorted(selected - intended)
+            run.check("R2", "lkm-membership-is-exact", not wrong, "MODULES_LKM is a string, so `MODULES_LKM.contains(&module.name)` is a substring search: it also selects %s (a prefix/substring of a listed name), which is not in the kernel-module subset %s" % (wrong, sorted(intended)), F.loc(lkm[0]["body"]))
+        elif intended is not None:
+            extra = sorted(intended - set(known))
             if extra:
                 run.note("MODULES_LKM names %s which are not registered modules (no effect on selection)" % extra)
-            # `MODULES_LKM.contains(&module.name)`: list membership for an array / slice, SUBSTRING search for a string
-            lty = F.tyi(lkm[0]["ret"]) if isinstance(lkm[0].get("ret"), int) else (F.ty(lkm[0]["body"]) or "")
-            is_string = lty.replace("'static ", "").replace("&", "").strip() in ("str", "std::string::String") or (len(names) == 1 and isinstance(names[0], str) and "," in names[0])
-            if is_string and names and isinstance(names[0], str):
-                text = names[0]
-                intended = {x.strip() for x in text.split(",") if x.strip()}
-                selected = {n for n in known if n in text}
-                wrong = sorted(selected - intended)
-                run.check("R2", "lkm-membership-is-exact", not wrong, "MODULES_LKM is a string, so `MODULES_LKM.contains(&module.name)` is a substring search: it also selects %s (a prefix/substring of a listed name), which is not in the kernel-module subset %s" % (wrong, sorted(intended)), F.loc(lkm[0]["body"]))
-            else:
-                run.holds("R2", "lkm-membership-is-exact", "array membership", F.loc(lkm[0]["body"]))
-                run.check("R2", "lkm-subset-nonempty", any(n in known for n in names), "MODULES_LKM selects no registered module", F.loc(lkm[0]["body"]))
-        # the run loop
-        loops = [(i, st) for i, st in enumerate(stmts) if st[0] == "for" and any(isinstance(x, tuple) and x and x[0] == "callind" for x in S.subterms(st))]
-        if len(loops) != 1:
-            run.undecided("R2", "run-loop", "expected exactly one loop invoking module.run; found %d" % len(loops), site)
+            run.holds("R2", "lkm-membership-is-exact", "array membership", F.loc(lkm[0]["body"]))
+            run.check("R2", "lkm-subset-nonempty", bool(intended & set(known)), "MODULES_LKM selects no registered module", F.loc(lkm[0]["body"]))
         else:
-            i, lp = loops[0]
-            run.check("R2", "run-loop|after-filter", i > muts[0], "modules are run before the selection is applied", site)
-            it = lp[2]
-            run.check("R2", "run-loop|iterates-modules", any(isinstance(x, tuple) and x and x[0] == "var" and x[1] == "modules" for x in S.subterms(it)) and not any(is_call(x, ("filter", "take", "skip", "step_by", "rev", "take_while", "skip_while")) for x in S.subterms(it)), "the run loop must iterate the whole filtered module list; iterable: %s" % fmt(it), site)
-            ci = [x for x in S.subterms(lp) if isinstance(x, tuple) and x and x[0] == "callind"]
-            c = ci[0]
-            good = c[1][0] == "field" and c[1][2] == "run" and len(c[2]) == 2 and c[2][1][0] in ("call", "index")
-            idx = c[2][1]
-            key_ok = False
-            if is_call(idx, "index") and len(idx[2]) == 2:
-                k = idx[2][1]
-                key_ok = k[0] == "field" and k[2] == "name" and k[1] == c[1][1]
-            run.check("R2", "run-loop|runs-module-with-its-config", bool(good and key_ok), "each selected module must be run as (module.run)(&analysis_results, &config[&module.name]); found %s" % fmt(("callind",) + c[1:])[:200], site)
-            exits = [x for x in S.subterms(lp) if isinstance(x, tuple) and x and x[0] in ("return",)] + [x for x in S.subterms(lp[3]) if isinstance(x, tuple) and x == ("continue",)]
-            run.check("R2", "run-loop|no-early-exit", not exits, "the run loop must not skip or stop early", site)
+            run.undecided("R2", "lkm-membership-is-exact", "MODULES_LKM is neither an array of string literals nor a string", F.loc(lkm[0]["body"]))
+        # --- the run loop
+        if len(run_calls_all) != 1:
+            run.undecided("R2", "run-loop", "expected exactly one call site of module.run; found %d" % len(run_calls_all), site)
+            return
+        rc = run_calls_all[0]
+        mod_var = T.root_var_id(rc["fe"])
+        # the loop (for / for_each) that binds the module variable
+        holder = None
+        for (n_, pat, it, lb) in T.for_loops(body):
+            if any(b.get("id") == mod_var for b in walk_pat(pat)) and any(x is rc for x in T.walk(lb)):
+                holder = ("for", it, lb)
+        if holder is None:
+            for x in T.walk(body):
+                if x.get("k") == "Call" and x.get("n") == "for_each" and len(x.get("a", [])) == 2 and T.peel(x["a"][1]).get("k") == "Closure":
+                    c = C.by_path.get(T.peel(x["a"][1])["d"])
+                    if c is not None and any(y is rc for y in T.walk(c["body"])):
+                        holder = ("for_each", x["a"][0], c["body"])
+        if holder is None:
+            run.undecided("R2", "run-loop", "module.run is not called from a for loop / for_each over the module list", site)
+            return
+        kind, it, lb = holder
+        restrict = [x for x in T.walk(it) if T.is_call(x, ("filter", "take", "skip", "step_by", "take_while", "skip_while", "filter_map", "nth", "last", "first", "find"))]
+        run.check("R2", "run-loop|iterates-modules", any(on_modules(x) for x in T.walk(it) if x.get("k") in ("Var", "Upvar")) and not restrict, "the run loop must iterate the whole filtered module list; iterable: %s" % T.show(it, C)[:160], site)
+        # second argument: config[<module>.name]
+        def resolve(e, depth=0):
+            e = T.peel(e)
+            vid = T.var_id(e)
+            if vid is not None and depth < 3:
+                for x in T.walk(lb):
+                    if x.get("k") == "LetStmt" and "i" in x and x["p"].get("k") == "Bind" and x["p"]["id"] == vid:
+                        return resolve(x["i"], depth + 1)
+            return e
+        cfg = resolve(rc["a"][1]) if len(rc.get("a", [])) == 2 else None
+        key_ok = False
+        if cfg is not None and ((cfg.get("k") == "Call" and cfg.get("n") == "index" and len(cfg["a"]) == 2) or cfg.get("k") == "Index"):
+            kx = T.peel(cfg["a"][1] if cfg.get("k") == "Call" else cfg["r"])
+            while kx.get("k") == "Call" and kx.get("n") in ("as_ref", "as_str", "deref", "borrow", "clone", "to_string", "to_owned") and kx.get("a"):
+                kx = T.peel(kx["a"][0])
+            key_ok = kx.get("k") == "Field" and kx.get("fn") == "name" and T.root_var_id(kx) == mod_var
+            cfg_root = T.show(cfg["a"][0] if cfg.get("k") == "Call" else cfg["l"], C)
+            key_ok = key_ok and "config" in cfg_root
+        run.check("R2", "run-loop|runs-module-with-its-config", bool(key_ok), "each selected module must be run as (module.run)(&analysis_results, &config[&module.name]); found %s" % T.show(rc, C)[:200], site)
+        exits = [x for x in T.walk(lb) if x.get("k") in ("Return", "Continue", "Break") and not x.get("x")]
+        # the desugared for loop itself contains a `break` for the None arm, which is outside lb
+        run.check("R2", "run-loop|no-early-exit", not exits, "the run loop must not skip or stop early", site)
+
+    def walk_pat(p):
+        yield p
+        for key in ("sub",):
+            v = p.get(key)
+            if isinstance(v, dict):
+                yield from walk_pat(v)
+            elif isinstance(v, list):
+                for s_ in v:
+                    yield from walk_pat(s_["p"] if "p" in s_ else s_)
+        if "p" in p and isinstance(p["p"], dict):
+            yield from walk_pat(p["p"])
+        for q in p.get("ps", []):
+            yield from walk_pat(q)
 
     run.guarded("R2", r2)
 
